@@ -7,10 +7,11 @@ from typing import Any, ClassVar
 
 from tree_sitter import Node
 
-from nix_manipulator.expressions.comment import Comment
+from nix_manipulator.expressions.comment import Comment, MultilineComment
 from nix_manipulator.expressions.expression import NixExpression, TypedExpression
 from nix_manipulator.expressions.trivia import (
     collect_comments_between_with_gap,
+    format_inline_comment_suffix,
     format_interstitial_trivia_with_separator,
     format_trivia,
     layout_from_gap,
@@ -27,6 +28,11 @@ class Select(TypedExpression):
     attr_before: list[Any] = field(default_factory=list)
     default_gap: str = " "
     default_before: list[Any] = field(default_factory=list)
+    # Comments between `.` and the attrpath, and between `or` and the default.
+    attr_after_dot: list[Any] = field(default_factory=list)
+    attr_after_dot_gap: str = ""
+    default_after_or: list[Any] = field(default_factory=list)
+    default_after_or_gap: str = " "
 
     @classmethod
     def from_cst(cls, node: Node) -> Select:
@@ -57,8 +63,21 @@ class Select(TypedExpression):
                 allow_inline=True,
             )
 
+        attr_after_dot: list[Any] = []
+        attr_after_dot_gap = ""
+        if dot_node is not None:
+            attr_after_dot, attr_after_dot_gap = collect_comments_between_with_gap(
+                node,
+                comment_nodes,
+                dot_node,
+                attrpath_node,
+                allow_inline=True,
+            )
+
         default_gap = " "
         default_before: list[Any] = []
+        default_after_or: list[Any] = []
+        default_after_or_gap = " "
         if default_node is not None:
             or_node = next(
                 (child for child in node.children if child.type == "or"), None
@@ -72,6 +91,16 @@ class Select(TypedExpression):
                     boundary_node,
                     allow_inline=True,
                 )
+            if or_node is not None:
+                default_after_or, default_after_or_gap = (
+                    collect_comments_between_with_gap(
+                        node,
+                        comment_nodes,
+                        or_node,
+                        default_node,
+                        allow_inline=True,
+                    )
+                )
         return cls(
             expression=tree_sitter_node_to_expression(expression_node),
             attribute=attrpath_node.text.decode(),
@@ -84,6 +113,10 @@ class Select(TypedExpression):
             attr_before=attr_before,
             default_gap=default_gap,
             default_before=default_before,
+            attr_after_dot=attr_after_dot,
+            attr_after_dot_gap=attr_after_dot_gap,
+            default_after_or=default_after_or,
+            default_after_or_gap=default_after_or_gap,
         )
 
     def rebuild(self, indent: int = 0, inline: bool = False) -> str:
@@ -110,7 +143,14 @@ class Select(TypedExpression):
         )
         if expression_str.endswith("\n") and attr_sep.startswith("\n"):
             attr_sep = attr_sep[1:]
-        rebuild_string = f"{expression_str}{attr_before_str}{attr_sep}.{self.attribute}"
+        after_dot = ""
+        if self.attr_after_dot:
+            after_dot = self._comments_then(
+                self.attr_after_dot, self.attr_after_dot_gap, indent + 2
+            )
+        rebuild_string = (
+            f"{expression_str}{attr_before_str}{attr_sep}.{after_dot}{self.attribute}"
+        )
         if self.default is not None:
             default_layout = layout_from_gap(self.default_gap)
             if default_layout.on_newline:
@@ -120,7 +160,7 @@ class Select(TypedExpression):
                     else indent + 2
                 )
                 default_sep = "\n\n" if default_layout.blank_line else "\n"
-                default_str = self.default.rebuild(indent=default_indent, inline=True)
+                default_str = self._default_with_comments(default_indent)
                 default_before = list(self.default_before)
                 inline_comment = ""
                 if default_before:
@@ -140,16 +180,59 @@ class Select(TypedExpression):
                         comment_str += "\n"
                     rebuild_string = (
                         f"{rebuild_string}{default_sep}{comment_str}"
-                        f"{or_indent}or {default_str}"
+                        f"{or_indent}{self._after_or(default_str)}"
                     )
                 else:
                     rebuild_string = (
-                        f"{rebuild_string}{default_sep}{or_indent}or {default_str}"
+                        f"{rebuild_string}{default_sep}{or_indent}"
+                        f"{self._after_or(default_str)}"
                     )
             else:
-                default_str = self.default.rebuild(indent=indent, inline=True)
-                rebuild_string = f"{rebuild_string} or {default_str}"
+                default_str = self._default_with_comments(indent)
+                before_or = format_inline_comment_suffix(
+                    [item for item in self.default_before if isinstance(item, Comment)]
+                )
+                rebuild_string = (
+                    f"{rebuild_string}{before_or} {self._after_or(default_str)}"
+                )
         return self.add_trivia(rebuild_string, indent, inline)
+
+    @staticmethod
+    def _comments_then(items: list[Any], gap: str, indent: int) -> str:
+        """Render comments that sit between two tokens of the select itself.
+
+        Block comments written on the same line stay there; anything else goes
+        on lines of its own and what follows starts a new line.
+        """
+        comments = [item for item in items if isinstance(item, Comment)]
+        same_line = "\n" not in gap and all(
+            isinstance(item, MultilineComment) and item.inline for item in comments
+        )
+        if same_line and len(comments) == len(items):
+            return " " + " ".join(c.rebuild(indent=0) for c in comments) + " "
+        pad = " " * indent
+        lines = ""
+        for comment in comments:
+            text = comment.rebuild(indent=indent)
+            if not text.startswith(pad):
+                text = pad + text.lstrip(" ")
+            lines += f"\n{text}"
+        return f"{lines}\n{pad}"
+
+    def _default_with_comments(self, indent: int) -> str:
+        assert self.default is not None
+        default_str = self.default.rebuild(indent=indent, inline=True)
+        if not self.default_after_or:
+            return default_str
+        lead = self._comments_then(
+            self.default_after_or, self.default_after_or_gap, indent + 2
+        )
+        return f"{lead.lstrip(' ')}{default_str}"
+
+    @staticmethod
+    def _after_or(default_str: str) -> str:
+        """`or` and its default: no trailing space when comments push the default down."""
+        return f"or{default_str}" if default_str.startswith("\n") else f"or {default_str}"
 
 
 __all__ = ["Select"]
